@@ -356,7 +356,10 @@ def check_c19(scn):
                      f"member c{i}: after stop() returned these things created by the client are still alive: {left[:4]}")
         g = scn.cluster.groups.get("g")
         moved = getattr(scn, "_moved", False)  # a failover around the stop: whether the member can reach the new coordinator depends on rediscovery
-        if (ctx.get("generation") or 0) > 0 and ctx.get("coordinator_up") and ctx.get("f_spent") == 0 and not mode and not moved and g is not None:
+        # no fault at all, neither before stop() (f_spent) nor while it ran: a connection reset during the final commit makes the
+        # client take the coordinator for dead, and it is not asked to rediscover it just to say goodbye
+        no_fault = ctx.get("f_spent") == 0 and scn.world.chooser.spent["f"] == 0
+        if (ctx.get("generation") or 0) > 0 and ctx.get("coordinator_up") and no_fault and not mode and not moved and g is not None:
             mid = ctx.get("member_id")
             end_tick = max((e[0] for e in scn.ev if e[2] == "stop-end" and e[3] == i), default=None)
             wrote_leave = any(e[2] == "gw" and e[3] == i and e[4] == "LeaveGroup" for e in scn.ev)
